@@ -50,8 +50,9 @@ SN_ALT = (0.1, 1.0, 7.5, 100.0, 1000.0)
 
 
 @st.composite
-def _sc_data(draw, recipe):
-    """short-circuit data for every element of the recipe (values inside the documented ranges of doc/elements/*_par.csv)"""
+def _sc_data(draw, recipe, zero=False):
+    """short-circuit data for every element of the recipe (values inside the documented ranges of doc/elements/*_par.csv);
+    zero=True: also zero-sequence data for single-phase faults"""
     for e in recipe["el"]:
         t = e["t"]
         vn = recipe["buses"][e["bus"]]["vn_kv"] if "bus" in e and t != "switch" else None
@@ -59,12 +60,33 @@ def _sc_data(draw, recipe):
             s = round(LEVELS[vn]["s"] * draw(q(5.0, 300.0, nd=1)), 4)
             e.update(s_sc_max_mva=s, s_sc_min_mva=round(s * draw(q(0.3, 1.0, nd=2)), 4),
                      rx_max=draw(q(0.0, 0.6, nd=2)), rx_min=draw(q(0.0, 0.6, nd=2)))
+            if zero:
+                e.update(r0x0_max=draw(q(0.05, 0.5, nd=2)), x0x_max=draw(q(0.5, 3.0, nd=1)),
+                         r0x0_min=draw(q(0.05, 0.5, nd=2)), x0x_min=draw(q(0.5, 3.0, nd=1)))
         elif t == "impedance":
             # reciprocal impedances only: IEC 60909 (and its bound on the peak factor) knows no direction-dependent branch
             e.pop("rtf_pu", None)
             e.pop("xtf_pu", None)
+            if zero:
+                e.update(rft0_pu=round(e["rft_pu"] * 2, 6), xft0_pu=round(e["xft_pu"] * 3, 6),
+                         gf0_pu=e.get("gf_pu", 0.0), bf0_pu=e.get("bf_pu", 0.0))
         elif t == "line":
             e["endtemp_degree"] = float(draw(st.sampled_from([20, 80, 80, 160, 250])))
+            if zero:
+                e.update(r0_ohm_per_km=round(e["r_ohm_per_km"] * draw(q(1.5, 4.0, nd=1)), 5),
+                         x0_ohm_per_km=round(e["x_ohm_per_km"] * draw(q(2.0, 4.0, nd=1)), 5),
+                         c0_nf_per_km=round(e["c_nf_per_km"] * draw(q(0.4, 1.0, nd=1)), 3))
+        elif t == "trafo" and zero:
+            e.update(vector_group=draw(st.sampled_from(["Dyn", "Dyn", "YNyn", "Yzn", "YNd", "Yyn", "YNy", "Yy", "Dd"])),
+                     vk0_percent=round(e["vk_percent"] * draw(q(0.8, 1.0, nd=2)), 4),
+                     mag0_percent=float(draw(st.sampled_from([100, 100, 50, 10]))), mag0_rx=draw(q(0.0, 0.3, nd=2)),
+                     si0_hv_partial=draw(q(0.1, 0.9, nd=1)))
+            e["vkr0_percent"] = round(min(e["vkr_percent"], e["vk0_percent"]) * draw(q(0.8, 1.0, nd=2)), 4)
+        elif t == "trafo3w" and zero:
+            e.update(vector_group=draw(st.sampled_from(["YNynd", "YNyd", "Yynd", "YNdd", "Ydyn", "Yyy"])))
+            for sd in ("hv", "mv", "lv"):
+                e["vk0_%s_percent" % sd] = e["vk_%s_percent" % sd]
+                e["vkr0_%s_percent" % sd] = e["vkr_%s_percent" % sd]
         elif t == "gen":
             sn = round(LEVELS[vn]["s"] * draw(q(0.5, 6.0, nd=1)), 4)
             vg = round(vn * draw(st.sampled_from([1.0, 1.0, 1.05, 0.95])), 6)
@@ -95,10 +117,11 @@ def _sc_data(draw, recipe):
 @st.composite
 def _case(draw, tier):
     recipe = draw(netgen.grid(PROFILE))
-    recipe = draw(_sc_data(recipe))
+    fault = draw(st.sampled_from(["3ph", "3ph", "3ph", "2ph", "2ph", "1ph"]))
+    recipe = draw(_sc_data(recipe, zero=fault == "1ph" or draw(st.integers(0, 3)) == 0))
     nb = len(recipe["buses"])
     opt = {"case": draw(st.sampled_from(["max", "min"])),
-           "fault": draw(st.sampled_from(["3ph", "3ph", "2ph"])),
+           "fault": fault,
            "lv_tol_percent": draw(st.sampled_from([10, 10, 6])),
            "ip": draw(st.booleans()), "ith": draw(st.sampled_from([False, False, True])),
            "kappa_method": draw(st.sampled_from(["C", "C", "B"])),
@@ -180,10 +203,12 @@ def compare_rows(res, what, base, other, buses, opt, rtol=1e-9, **detail):
         if ra is None or rb is None:
             res.fail("invariance/%s/row-missing" % what, bus=b, **detail)
             continue
-        zabs = max(abs(complex(ra.get("rk_ohm", 0.0), ra.get("xk_ohm", 0.0))), 0.0)
-        zabs = zabs if math.isfinite(zabs) else 0.0
+        zabs = {}
+        for sfx in ("", "0"):
+            za = abs(complex(ra.get("rk%s_ohm" % sfx, 0.0), ra.get("xk%s_ohm" % sfx, 0.0)))
+            zabs["rk%s_ohm" % sfx] = zabs["xk%s_ohm" % sfx] = za if math.isfinite(za) else 0.0
         for c in ra:
-            atol = rtol * zabs if c in ("rk_ohm", "xk_ohm") else 1e-12
+            atol = rtol * zabs[c] if c in zabs else 1e-12
             if c not in rb:
                 res.fail("invariance/%s/column-missing" % what, bus=b, column=c, **detail)
             elif not _rel(ra[c], rb[c], rtol, atol):
@@ -249,6 +274,7 @@ def check(case):
     kinds_sig = "+".join(sorted(ref.has - {"ext_grid", "line"})) or "basic"
     finite = 0
     two = opt["fault"] == "2ph"
+    one = opt["fault"] == "1ph"
     for b in faulted:
         row = base.get(int(b))
         if row is None:
@@ -274,22 +300,27 @@ def check(case):
             sig = "zk/multi-kg-gen-node" if multi_kg else "zk/%s/%s" % (opt["case"], kinds_sig)
             res.fail(sig, bus=b, zk=zk, zk_ref=zexp, rel=abs(zk - zexp) / abs(zexp))
         # (i) ikss from the same row
-        ik1 = c * un / ((2.0 if two else math.sqrt(3.0)) * abs(zk))
+        if one:
+            # IEC 60909-0: I''k1 = sqrt3 * c * Un / |Z1 + Z2 + Z0| with Z2 = Z1; an infinite zero-sequence impedance gives 0
+            zk0 = complex(row["rk0_ohm"], row["xk0_ohm"])
+            ik1 = 0.0 if math.isinf(abs(zk0)) else math.sqrt(3.0) * c * un / abs(2.0 * zk + zk0)
+        else:
+            ik1 = c * un / ((2.0 if two else math.sqrt(3.0)) * abs(zk))
         if not cur_src:
             if not _rel(row["ikss_ka"], ik1, 1e-9):
-                res.fail("ikss/same-row/%s" % opt["fault"], bus=b, ikss=row["ikss_ka"], expected=ik1, c=c)
+                res.fail("ikss/same-row/%s" % opt["fault"], bus=b, ikss=row["ikss_ka"], expected=ik1, c=c, row=row)
         elif row["ikss_ka"] < ik1 * (1 - 1e-9):
             res.fail("ikss/below-voltage-source-share", bus=b, ikss=row["ikss_ka"], ikss1=ik1)
-        elif not two:
+        elif not two and not one:
             ik2_ref = ref.ikss2(b, zf)
             if not _rel(row["ikss_ka"], ik1 + ik2_ref, 1e-8):
                 res.fail("zk/multi-kg-gen-node" if multi_kg else "ikss/current-source-share", bus=b, ikss=row["ikss_ka"], ikss1=ik1, ikss2_ref=ik2_ref)
         ik2 = max(0.0, row["ikss_ka"] - ik1) if cur_src else 0.0
         # (iii) skss
-        if not two and not _rel(row["skss_mw"], math.sqrt(3.0) * un * row["ikss_ka"], 1e-9):
+        if not two and not one and not _rel(row["skss_mw"], math.sqrt(3.0) * un * row["ikss_ka"], 1e-9):
             res.fail("skss/3ph", bus=b, skss=row["skss_mw"], expected=math.sqrt(3.0) * un * row["ikss_ka"])
         # (v) peak current
-        if opt["ip"]:
+        if opt["ip"] and not one:
             kappa = (row["ip_ka"] / math.sqrt(2.0) - ik2) / ik1
             if not (1.02 - 1e-9 <= kappa <= 2.0 + 1e-9):
                 res.fail("kappa/out-of-range/%s-%s" % (opt["kappa_method"], opt["topology"]), bus=b, kappa=kappa, row=row)
@@ -324,8 +355,8 @@ def check(case):
             b0 = faulted[len(faulted) // 2]
             other = run_sc(net, [b0], opt)
             compare_rows(res, "bus-subset", base, other, [b0], opt, subset=[b0])
-        other = run_sc(net, buses, opt, fault="2ph" if not two else "3ph")
-        if not cur_src:
+        other = base if one else run_sc(net, buses, opt, fault="2ph" if not two else "3ph")
+        if not cur_src and not one:
             for b in faulted:
                 a3, a2 = (other, base) if two else (base, other)
                 i3, i2 = a3[int(b)]["ikss_ka"], a2[int(b)]["ikss_ka"]
